@@ -246,9 +246,24 @@ def _userinfo_forward(acc, shard, nshards, seed, tier):
                         acc.check({"kind": "pair", "u": u, "v": v, "suffix_aware": sa, "forward_only": True}, True, ["userinfo-in-descendant"] if idx % 7 == 0 else ())
 
 
+IP_URLS = ["http://[::ffff:192.0.2.1]:8080", "http://[::ffff:192.0.2.9]:9090/a", "http://[::ffff:192.0.2.1]:8080/a/b", "http://[64:ff9b::192.0.2.33]/", "http://[64:ff9b::198.51.100.7]/x",
+           "http://[2001:db8::1]:8080", "http://[2001:db8::1]:8080/a", "http://[2001:db8::2]:8080/a", "http://127.0.0.1:8080", "http://127.0.0.1:8080/a", "http://127.0.0.2:8080/a"]
+
+
+def _ip_pairs(acc, shard, nshards, seed, tier):
+    """IP-literal hosts are no name chains (no subdomains), but two different machines or ports must still not look like ancestor and descendant"""
+    idx = 0
+    for u, v in itertools.product(IP_URLS, repeat=2):
+        for sa in (False, True):
+            idx += 1
+            if idx % nshards == shard:
+                acc.check({"kind": "pair", "u": u, "v": v, "suffix_aware": sa}, u != v, ["ip-literal-pair"] if idx % 9 == 0 else ())
+
+
 def campaigns(tier, seed):
     n = len(universe(tier))
-    return [Campaign("descendants-with-userinfo", _userinfo_forward, "enumeration", exhaustive=True,
+    return [Campaign("ip-literal-pairs", _ip_pairs, "enumeration", exhaustive=True, bounds="%d URLs on IP-literal hosts, all ordered pairs x suffix_aware" % len(IP_URLS)),
+            Campaign("descendants-with-userinfo", _userinfo_forward, "enumeration", exhaustive=True,
                      bounds="5 host pairs x 2 ports x 3 path shapes x 7 userinfo spellings x suffix_aware"),
             Campaign("pairs-after-earlier-calls", _histories, "enumeration", exhaustive=True,
                      bounds="every (host, host-or-subdomain) pair of the universe x 4 path shapes x suffix_aware x 4 call histories (other mode first)"),
